@@ -89,7 +89,7 @@ func main() {
 
 func filterCase(r *hlib.Rng, s *hlib.Suite) {
 	promo := r.Chance(1, 15)
-	enumLike := !promo && r.Chance(1, 15)
+	enumLike := !promo && r.Chance(1, 8)
 	var need []string
 	if promo {
 		need = []string{"int", "float"}
@@ -100,7 +100,26 @@ func filterCase(r *hlib.Rng, s *hlib.Suite) {
 	}
 	qf, cols := genFrame(r, need)
 	forceCaseCluster = false
-	qf, cols, hist := deriveCols(r, qf, cols, s)
+	var hist []string
+	if enumLike && r.Chance(1, 2) {
+		// the row order rearranged ONCE on an otherwise fresh frame (ends fixed two times in three): the index is a
+		// permutation of a contiguous block of rows
+		forceCaseCluster = true
+		for try := 0; try < 10 && qf.Len() < 4; try++ {
+			qf, cols = genFrame(r, need)
+		}
+		forceCaseCluster = false
+		if qf.Len() >= 2 {
+			var h string
+			qf, h = rearrange(r, qf)
+			hist = []string{h}
+		}
+		s.Count("filter-like-on-rearranged-rows")
+	} else {
+		forceRearrange = enumLike
+		qf, cols, hist = deriveCols(r, qf, cols, s)
+		forceRearrange = false
+	}
 	malformed := r.Chance(1, 4)
 	cl := genClause(r, cols, 3, malformed)
 	if promo {
